@@ -1,10 +1,13 @@
 --------------------------- MODULE Trace_ElasticNet ---------------------------
 (* Batch validation of recorded runs of the real ApplyRubberBand.run_molecule (C15).
    Batch[i] = [fam  : generator family,
-               m    : input as in ElasticNet,
+               m    : input as in ElasticNet, plus  lo : lower bound (pm, only used to count distances below it),
+                      name per atom, rmdspec / btspec : [given, val, ffhas, ffval] how separation and bond function type reach the
+                      processor (argument, variable of the molecule's force field, neither),
                rec  : [exc : BOOLEAN, warn : number of warnings logged,
-                       bonds : Seq([a, b : particle index, len : length in 10^-5 nm, k : constant in 10^-6]),
-                       others : BOOLEAN  (bonds not in group "Rubber band" are what they were before)],
+                       bonds : Seq([a, b : particle index, len : length in 10^-5 nm, k : constant in 10^-6, ft : function type]),
+                               the bonds of group "Rubber band" ADDED by the recorded call (a molecule may have a network already)
+                       others : BOOLEAN  (every interaction present before the call is still what and where it was)],
                twin : [has : BOOLEAN, exc, bonds]  the same molecule after a rigid motion and with another atom
                       order / other node keys, bonds mapped back to the particle indices of m]
    Verdict: [v |-> "ok" or the first reason for rejection, cls |-> number of particle pairs per class
@@ -14,7 +17,7 @@ EXTENDS Integers, Sequences, FiniteSets, TLC, Json, IOUtils
 Batch == JsonDeserialize(IOEnv.TRACE_FILE)
 
 EN == INSTANCE ElasticNet WITH NB <- 0, Spacing <- 0, Ups <- {}, Rmds <- {}, Minfs <- {}, Base <- 0, Partitions <- {},
-                               ChainSplits <- {}, DomKinds <- {}, TabRegions <- <<>>, m <- <<>>, out <- {}
+                               ChainSplits <- {}, DomKinds <- {}, TabRegions <- {}, m <- <<>>, out <- {}
 
 VARIABLES tid, verdict
 vars == <<tid, verdict>>
@@ -26,6 +29,10 @@ BondsWellFormed(m, bs) == \A i \in DOMAIN bs : bs[i].a \in 1..EN!NA(m) /\ bs[i].
 NoDuplicates(bs)       == \A i, j \in DOMAIN bs : i # j => Norm(bs[i]) # Norm(bs[j])
 LengthsOK(m, bs)   == \A i \in DOMAIN bs : EN!RoundsTo(bs[i].len, EN!Dist2(m, bs[i].a, bs[i].b))
 ConstantsOK(m, bs) == \A i \in DOMAIN bs : EN!Abs(bs[i].k - EN!K(m, bs[i].a, bs[i].b)) <= 1
+\* beyond the statement, named separately: the function type is the one given, else the force field's, else 6
+TypesOK(m, bs)     == \A i \in DOMAIN bs : bs[i].ft = EN!ResolveSpec(m.btspec, EN!DefaultBondType)
+\* the input with the separation the processor documents (m.rmd of the recording is a placeholder when m.rmdspec is there)
+Resolved(m) == [m EXCEPT !.rmd = EN!ResolveSpec(m.rmdspec, EN!DefaultRmd)]
 
 JudgeBonds(m, cx, bs, tag) ==
   LET exp == EN!ExpectedDecl(m)
@@ -40,6 +47,7 @@ JudgeBonds(m, cx, bs, tag) ==
      ELSE IF exp \ got # {} THEN tag \o "qualifying-pair-without-bond"
      ELSE IF ~LengthsOK(m, bs) THEN tag \o "length-is-not-the-distance-to-5-decimals"
      ELSE IF ~ConstantsOK(m, bs) THEN tag \o "constant-is-not-the-capped-decayed-base"
+     ELSE IF ~TypesOK(m, bs) THEN tag \o "bond-function-type-not-as-documented"
      ELSE "ok"
 
 SameNetwork(bs, ts) ==
@@ -48,7 +56,7 @@ SameNetwork(bs, ts) ==
         Norm(bs[i]) = Norm(ts[j]) => bs[i].len = ts[j].len /\ EN!Abs(bs[i].k - ts[j].k) <= 1
 
 Judge(e) ==
-  LET m  == e.m
+  LET m  == Resolved(e.m)
       cx == EN!Ctx(m)
   IN IF e.rec.exc THEN "exception"
      ELSE IF EN!HasNan(m) THEN
@@ -67,15 +75,35 @@ Judge(e) ==
                ELSE "ok"
 
 Classes(e) ==
-  LET m  == e.m
+  LET m  == Resolved(e.m)
+      A  == m.atoms
       cx == EN!Ctx(m)
-      P  == {p \in EN!Pairs(m) : ~m.atoms[p[1]].nan /\ ~m.atoms[p[2]].nan}
+      P  == {p \in EN!Pairs(m) : ~A[p[1]].nan /\ ~A[p[2]].nan}
       cl == [p \in P |-> EN!ClassOf(m, cx, p[1], p[2])]
-      N(c) == Cardinality({p \in P : cl[p] = c})
+      Of(c) == {p \in P : cl[p] = c}
+      N(c) == Cardinality(Of(c))
+      B  == Of("bond")
+      inreg(x) == {i \in DOMAIN m.dom.regions : EN!InRegion(m.dom.regions[i], EN!RegResid(x))}
+      below(p) == EN!Dist2(m, p[1], p[2]) < m.lo * m.lo
   IN [bond |-> N("bond"), sel |-> N("sel"), dom |-> N("dom"), sep |-> N("sep"), cut |-> N("cut"),
-      force |-> N("force"), multi |-> N("multi")]
+      force |-> N("force"), multi |-> N("multi"),
+      \* excluded by the separation alone although the residue numbers (same chain) are further apart than rmd: a ring or a branch
+      shortcut |-> Cardinality({p \in Of("sep") : A[p[1]].chain = A[p[2]].chain /\ EN!Abs(A[p[1]].resid - A[p[2]].resid) > m.rmd}),
+      \* bonded although the residue numbers are within rmd of each other: a chain break, another chain, numbers that restart
+      bynumber |-> Cardinality({p \in B : EN!Abs(A[p[1]].resid - A[p[2]].resid) <= m.rmd}),
+      \* bonded pairs that share a region although one of the beads lies in several regions (hinge, nested, overlapping)
+      hinge |-> IF m.dom.kind = "regions"
+                THEN Cardinality({p \in B : Cardinality(inreg(A[p[1]])) > 1 \/ Cardinality(inreg(A[p[2]])) > 1}) ELSE 0,
+      \* decay with a distance below the lower bound: bonded at the cap (odd power) / bonded below the base, or excluded by the
+      \* force alone (even power)
+      lowcap |-> IF m.decay THEN Cardinality({p \in B : below(p) /\ EN!RawK(m, p[1], p[2]) > m.base}) ELSE 0,
+      lowdec |-> IF m.decay THEN Cardinality({p \in B \cup Of("force") : below(p) /\ EN!RawK(m, p[1], p[2]) < m.base}) ELSE 0,
+      \* bonded pairs of selected beads of which one shares its name with another bead of its residue
+      dupname |-> Cardinality({p \in B : \E x \in {p[1], p[2]} : \E y \in DOMAIN A :
+                                 y # x /\ cx.rep[y] = cx.rep[x] /\ A[y].name = A[x].name})]
 
-NoClasses == [bond |-> 0, sel |-> 0, dom |-> 0, sep |-> 0, cut |-> 0, force |-> 0, multi |-> 0]
+NoClasses == [bond |-> 0, sel |-> 0, dom |-> 0, sep |-> 0, cut |-> 0, force |-> 0, multi |-> 0, shortcut |-> 0, bynumber |-> 0,
+              hinge |-> 0, lowcap |-> 0, lowdec |-> 0, dupname |-> 0]
 Init == tid \in 1..Len(Batch) /\ verdict = [v |-> "pending", cls |-> NoClasses]
 Eval == /\ verdict.v = "pending"
         /\ verdict' = [v |-> Judge(Batch[tid]), cls |-> Classes(Batch[tid])]
